@@ -625,7 +625,7 @@ class ControllerNode(SceneNode):
         if not url.startswith('#'):
             raise DaeMalformedError('Invalid url in controller instance %s' % url)
         controller = collada.controllers.get(url[1:])
-        if not controller:
+        if controller is None:
             raise DaeBrokenRefError('Controller %s not found in library' % url)
         matnodes = node.findall('%s/%s/%s' % (collada.tag('bind_material'), collada.tag('technique_common'), collada.tag('instance_material')))
         materials = []
